@@ -1,82 +1,123 @@
-(* The abstract core of Riemann-Roch for graphs: from the burning certificate (RR1) and the closure of the set N of unwinnable
-   divisors of degree g-1 under nu |-> K - nu (N_closed), 'some effective E of degree k makes D - E unwinnable' transfers between D and K - D. *)
+(* Riemann-Roch for graphs (Baker-Norine), in the form used by the optimized rank:
+     "some effective E of degree k makes D - E unwinnable"  <->  the same for K - D at level k - deg D - 1 + g.
+   Part 1 (abstract core): from RR1 (every unwinnable X is dominated, up to equivalence, by some nu in N) and N_closed (nu in N -> K - nu in N),
+   where N = unwinnable divisors of degree g - 1.
+   Part 2: RR1 and N_closed from the burning certificate: every unwinnable X is equivalent to some R dominated by the divisor of an acyclic
+   orientation given by an injective position function (supplied by the algorithm, see Link/RRLink.v). *)
 From Coq Require Import ZArith List Lia Bool Arith.
 Import ListNotations.
-From CF Require Import ZSum.
+From CF Require Import ZSum ListAux Defs LinEquiv Reduced Genus.
 Open Scope Z_scope.
 
 Section RR.
 Variable V : list nat.
 Variable m : nat -> nat -> Z.
 Hypothesis m_sym : forall v w, m v w = m w v.
-
-Definition lap (s : nat -> Z) (v : nat) : Z := zsum (fun w => m v w * (s v - s w)) V.
-Definition deg (D : nat -> Z) := zsum D V.
-Definition lequiv (D E : nat -> Z) := exists s, forall v, In v V -> E v = D v - lap s v.
-Definition effective (D : nat -> Z) := forall v, In v V -> 0 <= D v.
-Definition winnable D := exists E, lequiv D E /\ effective E.
-
-(* facts proved elsewhere (Theory0.v), restated here as lemmas to keep the spike self-contained *)
-Lemma lap_add s t v : lap (fun x => s x + t x) v = lap s v + lap t v.
-Proof. unfold lap. rewrite <- zsum_add. apply zsum_ext; intros; ring. Qed.
-Lemma lap_sum_zero s : zsum (lap s) V = 0.
-Proof.
-  unfold lap.
-  assert (E : zsum (fun v => zsum (fun w => m v w * (s v - s w)) V) V
-            = zsum (fun v => zsum (fun w => m v w * s v) V) V - zsum (fun v => zsum (fun w => m v w * s w) V) V).
-  { rewrite <- zsum_sub. apply zsum_ext; intros v _. rewrite <- zsum_sub. apply zsum_ext; intros; ring. }
-  rewrite E. rewrite (zsum_swap (fun v w => m v w * s w)).
-  rewrite (zsum_ext (fun b => zsum (fun a => m a b * s b) V) (fun v => zsum (fun w => m v w * s v) V)); [lia|].
-  intros v _. apply zsum_ext; intros w _. rewrite (m_sym w v). ring.
-Qed.
+Local Notation lap := (lap V m).
+Local Notation deg := (deg V).
+Local Notation lequiv := (lequiv V m).
+Local Notation effective := (effective V).
+Local Notation winnable := (winnable V m).
 
 Variable g : Z.
 Variable K : nat -> Z.
 Hypothesis deg_K : deg K = 2 * g - 2.
 Definition N (nu : nat -> Z) := deg nu = g - 1 /\ ~ winnable nu.
-
-(* the three inputs from the rest of the development *)
-Hypothesis RR1 : forall X, ~ winnable X -> exists nu, N nu /\ winnable (fun v => nu v - X v).   (* burning certificate, C09 *)
-Hypothesis N_closed : forall nu, N nu -> N (fun v => K v - nu v).                               (* D(O)+D(rev O)=K, C11 *)
+Hypothesis RR1 : forall X, ~ winnable X -> exists nu, N nu /\ winnable (fun v => nu v - X v).
+Hypothesis N_closed : forall nu, N nu -> N (fun v => K v - nu v).
 
 Definition unwinnable_at (D : nat -> Z) (k : Z) := exists E, effective E /\ deg E = k /\ ~ winnable (fun v => D v - E v).
 
-Lemma winnable_sum X Y : winnable X -> winnable Y -> winnable (fun v => X v + Y v).
-Proof. intros [X' [[s Hs] HX]] [Y' [[t Ht] HY]]. exists (fun v => X' v + Y' v). split.
-  - exists (fun v => s v + t v). intros v Hv. rewrite lap_add, (Hs v Hv), (Ht v Hv). lia.
-  - intros v Hv. specialize (HX v Hv). specialize (HY v Hv). lia. Qed.
-Lemma winnable_ext X Y : (forall v, In v V -> X v = Y v) -> winnable X -> winnable Y.
-Proof. intros H [E [[s Hs] HE]]. exists E. split; auto. exists s. intros v Hv. rewrite <- (H v Hv). auto. Qed.
-
-Theorem RR_half D k : unwinnable_at D k ->
-  unwinnable_at (fun v => K v - D v) (k - deg D - 1 + g).
+Theorem RR_half D k : unwinnable_at D k -> unwinnable_at (fun v => K v - D v) (k - deg D - 1 + g).
 Proof.
   intros [E [HE [HdE Hnw]]].
   destruct (RR1 _ Hnw) as [nu [HN [E' [[s Hs] HE']]]].
   exists E'. split; auto. split.
-  - (* degree of E' *)
-    unfold deg in *. rewrite (zsum_ext E' (fun v => nu v - D v + E v - lap s v)).
-    + rewrite zsum_sub, lap_sum_zero. rewrite zsum_add, zsum_sub. destruct HN as [HdN _]. unfold deg in HdN. lia.
+  - unfold Defs.deg in *. rewrite (zsum_ext E' (fun v => nu v - D v + E v - lap s v)).
+    + rewrite zsum_sub, (lap_sum_zero V m m_sym). rewrite zsum_add, zsum_sub. destruct HN as [HdN _]. unfold Defs.deg in HdN. lia.
     + intros v Hv. pose proof (Hs v Hv) as Hsv. cbv beta in Hsv. lia.
-  - (* K - D - E' is unwinnable: otherwise K - nu = (K - D - E') + (D - nu + E') would be winnable *)
-    intros Hw. destruct (N_closed nu HN) as [_ Hun]. apply Hun.
+  - intros Hw. destruct (N_closed nu HN) as [_ Hun]. apply Hun.
     destruct Hw as [W [[t Ht] HW]]. exists (fun v => W v + E v). split.
-    + exists (fun v => t v + (- s v)). intros v Hv. rewrite lap_add.
-      assert (lap (fun x => - s x) v = - lap s v).
-      { unfold lap. replace (- zsum (fun w => m v w * (s v - s w)) V) with ((-1) * zsum (fun w => m v w * (s v - s w)) V) by ring.
-        rewrite <- zsum_scale. apply zsum_ext; intros; ring. }
+    + exists (fun v => t v + (- s v)). intros v Hv. rewrite lap_add, lap_neg.
       pose proof (Ht v Hv) as Htv. pose proof (Hs v Hv) as Hsv. cbv beta in Htv, Hsv. lia.
     + intros v Hv. specialize (HW v Hv). specialize (HE v Hv). lia.
 Qed.
-
-(* the other half is the same statement applied to K - D *)
 Theorem RR_iff D k : unwinnable_at D k <-> unwinnable_at (fun v => K v - D v) (k - deg D - 1 + g).
 Proof.
   split; [apply RR_half|]. intros H. apply RR_half in H.
-  assert (Hd : deg (fun v => K v - D v) = 2 * g - 2 - deg D). { unfold deg in *. rewrite zsum_sub. lia. }
+  assert (Hd : deg (fun v => K v - D v) = 2 * g - 2 - deg D). { unfold Defs.deg in *. rewrite zsum_sub. lia. }
   rewrite Hd in H. replace (k - deg D - 1 + g - (2 * g - 2 - deg D) - 1 + g) with k in H by lia.
   destruct H as [E [HE [HdE Hn]]]. exists E. repeat split; auto. intros Hw. apply Hn.
   eapply winnable_ext; [|exact Hw]. intros v Hv. cbv beta. lia.
 Qed.
+Lemma unwinnable_at_nonneg D k : unwinnable_at D k -> 0 <= k.
+Proof. intros [E [HE [Hd _]]]. rewrite <- Hd. apply zsum_nonneg. auto. Qed.
 End RR.
 
+(* ---------------- Part 2: the two facts, from certificates ---------------- *)
+Section Glue.
+Variable V : list nat.
+Variable m : nat -> nat -> Z.
+Hypothesis V_nodup : NoDup V.
+Hypothesis V_ne : V <> [].
+Hypothesis m_nonneg : forall v w, 0 <= m v w.
+Hypothesis m_sym : forall v w, m v w = m w v.
+Hypothesis m_diag : forall v, m v v = 0.
+Local Notation deg := (deg V).
+Local Notation lequiv := (lequiv V m).
+Local Notation winnable := (winnable V m).
+Local Notation gg := (genus V m).
+Definition inj_on (pos : nat -> nat) : Prop := forall v w, In v V -> In w V -> pos v = pos w -> v = w.
+(* the certificate the winnability algorithm produces for every unwinnable divisor *)
+Hypothesis cert_exists : forall X, ~ winnable X -> exists R pos, lequiv X R /\ inj_on pos /\ forall v, In v V -> R v <= orient_div V m pos v.
+
+Lemma indeg_sum_two (pos pos' : nat -> nat) : inj_on pos -> (forall v w, In v V -> In w V -> (Nat.ltb (pos' w) (pos' v) = Nat.ltb (pos v) (pos w))) ->
+  forall v, In v V -> indeg_pos V m pos v + indeg_pos V m pos' v = val V m v.
+Proof. intros Hinj Hrev v Hv. unfold indeg_pos, val. rewrite <- zsum_add. apply zsum_ext. intros w Hw. rewrite (Hrev v w Hv Hw).
+  destruct (Nat.ltb_spec (pos w) (pos v)), (Nat.ltb_spec (pos v) (pos w)); try lia.
+  assert (v = w) by (apply Hinj; auto; lia). subst. rewrite m_diag. lia. Qed.
+Lemma indeg_total pos : inj_on pos -> zsum (indeg_pos V m pos) V = nedges V m.
+Proof. intros Hinj.
+  assert (Hsw : zsum (indeg_pos V m pos) V = zsum (fun v => zsum (fun w => if Nat.ltb (pos v) (pos w) then m v w else 0) V) V).
+  { unfold indeg_pos. rewrite (zsum_swap (fun v w => if Nat.ltb (pos w) (pos v) then m v w else 0)). apply zsum_ext. intros v _. apply zsum_ext. intros w _.
+    now rewrite (m_sym w v). }
+  assert (Hsum : zsum (indeg_pos V m pos) V + zsum (fun v => zsum (fun w => if Nat.ltb (pos v) (pos w) then m v w else 0) V) V = zsum (val V m) V).
+  { rewrite <- zsum_add. apply zsum_ext. intros v Hv. unfold indeg_pos, val. rewrite <- zsum_add. apply zsum_ext. intros w Hw.
+    destruct (Nat.ltb_spec (pos w) (pos v)), (Nat.ltb_spec (pos v) (pos w)); try lia. assert (v = w) by (apply Hinj; auto; lia). subst. rewrite m_diag. lia. }
+  pose proof (twice_edges_nedges V m m_sym m_diag) as T. unfold twice_edges in T. unfold val in Hsum. lia. Qed.
+Lemma orient_div_degree pos : inj_on pos -> deg (orient_div V m pos) = gg - 1.
+Proof. intros Hinj. unfold Defs.deg, orient_div. rewrite zsum_sub, zsum_const, (indeg_total pos Hinj). unfold genus. lia. Qed.
+Lemma canonical_degree : deg (canonical V m) = 2 * gg - 2.
+Proof. unfold Defs.deg, canonical. rewrite zsum_sub, zsum_const. pose proof (twice_edges_nedges V m m_sym m_diag) as T. unfold twice_edges in T. unfold val, genus. lia. Qed.
+
+Theorem RR1_holds : forall X, ~ winnable X -> exists nu, N V m gg nu /\ winnable (fun v => nu v - X v).
+Proof. intros X HX. destruct (cert_exists X HX) as [R [pos [HE [Hinj Hdom]]]]. exists (orient_div V m pos). split.
+  - split; [now apply orient_div_degree|]. now apply acyclic_unwinnable.
+  - apply (winnable_lequiv V m _ (fun v => orient_div V m pos v - R v)).
+    + apply lequiv_sub; [apply lequiv_refl|exact HE].
+    + apply effective_winnable. intros v Hv. specialize (Hdom v Hv). lia. Qed.
+Theorem N_closed_holds : forall nu, N V m gg nu -> N V m gg (fun v => canonical V m v - nu v).
+Proof. intros nu [Hd Hnw]. split.
+  - unfold Defs.deg in *. rewrite zsum_sub. pose proof canonical_degree as C. unfold Defs.deg in C. lia.
+  - destruct (cert_exists nu Hnw) as [R [pos [HE [Hinj Hdom]]]].
+    (* nu ~ R <= D(O) with equal degrees: R = D(O) on V *)
+    assert (HdR : deg R = gg - 1) by (rewrite (lequiv_deg V m m_sym _ _ HE); exact Hd).
+    assert (HRO : forall v, In v V -> R v = orient_div V m pos v).
+    { assert (H0 : forall v, In v V -> orient_div V m pos v - R v = 0).
+      { apply zsum_nonneg_zero; [intros v Hv; specialize (Hdom v Hv); lia|]. rewrite zsum_sub. pose proof (orient_div_degree pos Hinj) as HO. unfold Defs.deg in HO, HdR. lia. }
+      intros v Hv. specialize (H0 v Hv). lia. }
+    (* the reversed order *)
+    destruct (max_exists V (fun v => Z.of_nat (pos v)) V_ne) as [vm [_ HM]].
+    set (pos' := fun v => (pos vm - pos v)%nat).
+    assert (Hrev : forall v w, In v V -> In w V -> Nat.ltb (pos' w) (pos' v) = Nat.ltb (pos v) (pos w)).
+    { intros v w Hv Hw. unfold pos'. pose proof (HM v Hv). pose proof (HM w Hw). destruct (Nat.ltb_spec (pos vm - pos w) (pos vm - pos v)), (Nat.ltb_spec (pos v) (pos w)); auto; lia. }
+    assert (HK : forall v, In v V -> canonical V m v - R v = orient_div V m pos' v).
+    { intros v Hv. rewrite (HRO v Hv). unfold canonical, orient_div. pose proof (indeg_sum_two pos pos' Hinj Hrev v Hv). lia. }
+    intros Hw. apply (acyclic_unwinnable V m m_nonneg pos' V_ne).
+    apply (winnable_ext V m (fun v => canonical V m v - R v)); auto.
+    apply (winnable_lequiv V m _ (fun v => canonical V m v - nu v)); auto.
+    apply lequiv_sub; [apply lequiv_refl|apply lequiv_sym; exact HE]. Qed.
+(* Riemann-Roch *)
+Theorem riemann_roch D k : unwinnable_at V m D k <-> unwinnable_at V m (fun v => canonical V m v - D v) (k - deg D - 1 + gg).
+Proof. apply (RR_iff V m m_sym gg (canonical V m) canonical_degree RR1_holds N_closed_holds). Qed.
+End Glue.
